@@ -126,6 +126,22 @@ pub fn run_seed(args: &[String]) {
                 add(format!("dynamic_params[{k}]+2^32"), &|q| { let mut w: Vec<usize> = q.dynamic_params.clone().unwrap().into(); w[k] += 1usize << 32; q.dynamic_params = Some(swiftness_air::dynamic::DynamicParams::from(w)); });
             }
         }
+        // the seed is a function of the value, not of the object: edits made in place after a first call must be seen
+        {
+            let mut q = clone_pi(pi);
+            let _ = guarded(|| q.get_hash(nvf));
+            for step in 0..3 {
+                let n = q.main_page.len();
+                match step { 0 => q.main_page.0[n / 2].value += Felt::ONE, 1 => q.main_page.0[0].address += Felt::from(3), _ => q.main_page.0.swap(1, 2) }
+                cases += 1;
+                let got = guarded(|| q.get_hash(nvf));
+                let want = seed_ref(&q, nvf);
+                if got.as_ref().ok() != Some(&want) {
+                    bad += 1;
+                    out.line(&json!({"ok": false, "kind": "real", "why": format!("get_hash after an in-place edit of the main page (step {step}) differs from the reference SeedTerm evaluation of the edited input"), "case": {"layout": layout, "variant": format!("in-place:{step}")}}));
+                }
+            }
+        }
         variants.push(("nvf+1".into(), clone_pi(pi), nvf + Felt::ONE));
         let mut seen: std::collections::HashMap<Felt, String> = Default::default();
         // a perturbation that happens to leave the input unchanged (e.g. swapping two equal values) is not a different input
@@ -246,6 +262,8 @@ pub fn run_validate(args: &[String]) {
                     match dev[2].as_str().unwrap() {
                         "none" => {}
                         "logSteps+1" => pi.log_n_steps += Felt::ONE,
+                        // (p - 1) / 10 is the multiplicative order of 2 modulo the STARK prime: 2^(k + ord) = 2^k in the field
+                        "logSteps+ord2" => pi.log_n_steps += (Felt::ZERO - Felt::ONE).field_div(&starknet_core::types::NonZeroFelt::try_from(Felt::from(10)).unwrap()),
                         "logTrace+1" => lt += 1,
                         "logSteps=max-1,consistent" => { pi.log_n_steps = Felt::from(79); lt = 79 + log_cpu; zero_usage(&mut pi); }
                         "logSteps=max,consistent" => { pi.log_n_steps = Felt::from(80); lt = 80 + log_cpu; zero_usage(&mut pi); }
